@@ -2,9 +2,11 @@
 C11 — `SubmissionQueue::wake` never loses a wake-up.
 
 Theorems over the interleaving model `Model/Wake.lean` (one poller, any number
-of wakers, the SQPOLL kernel thread, unrelated completions), for every list of
-moves and the three ring configurations. `io` moves are never used to discharge
-an obligation: they are just one more move the environment may make.
+of wakers, the SQPOLL kernel thread, unrelated completions, other submissions
+being queued), for every list of moves and the three ring configurations. `io`
+and `fill` moves are never used to discharge an obligation: they are just more
+moves the environment may make (a `fill` can make the submission queue exactly
+full when `wake()` is called: the `QueueFull` retry path).
 
 Reading of the statement (DESIGN.md, C11): the decisive step of `wake()` is its
 `fetch_or` (`k1`); the obligation it creates (`oblig`) attaches to the
@@ -46,7 +48,7 @@ a wake message is queued, or a waker is on its sending path, or AWOKEN is set an
 poller has not executed its swap yet, or the poller is past the swap and cannot block. -/
 theorem C11_inv_design (s : St) (hs : Reachable s) :
     s.oblig = true →
-      0 < s.cq ∨ 0 < s.sq ∨ Has (fun pc => pc.sending = true) s.w ∨
+      0 < s.cq ∨ true ∈ s.sq ∨ Has (fun pc => pc.sending = true) s.w ∨
       (s.word / 2 % 2 = 1 ∧ (s.p = .idle ∨ (∃ inf, s.p = .start inf) ∨ (∃ inf, s.p = .c3 inf))) ∨
       ((∃ n, s.p = .e3 false n) ∨ s.p = .c4 ∨ s.p = .c5) := by
   intro ho
@@ -80,6 +82,7 @@ theorem stepMv_mode (s : St) (m : Mv) :
   | w j => exact ⟨(stepW_frame s j).2.2.1, (stepW_frame s j).2.2.2.1⟩
   | k => simp only [stepMv, stepK]; split <;> simp [consume]
   | io => simp [stepMv, stepIo]
+  | fill => simp only [stepMv, stepFill]; split <;> simp
 
 theorem C11_config_const (mode : Mode) (sqLen : Nat) (ms : List Mv) :
     (runMv (init mode sqLen) ms).mode = mode ∧ (runMv (init mode sqLen) ms).sqLen = sqLen := by
@@ -103,7 +106,7 @@ is non-empty, so the blocked `io_uring_enter` returns: the poller's next step
 leaves `.waiting`. -/
 theorem C11_no_lost_wake (s : St) (hs : Reachable s) :
     s.p = .waiting → s.oblig = true → (∀ pc ∈ s.w, pc = .done) →
-    (s.mode = .sqpoll → s.sq = 0) →
+    (s.mode = .sqpoll → true ∉ s.sq) →
       0 < s.cq ∧ (stepP s).p = .c4 := by
   intro hp ho hd hk
   have hinv := hs.inv
@@ -111,7 +114,7 @@ theorem C11_no_lost_wake (s : St) (hs : Reachable s) :
     rcases hinv.ob ho with c | c | c | c | c
     · exact c
     · by_cases hm : s.mode = .sqpoll
-      · have := hk hm; omega
+      · exact absurd c (hk hm)
       · exact absurd (hinv.cover hm c) (not_has_of_all hd (by simp))
     · exact absurd c (not_has_of_all hd (by simp [WPc.robust]))
     · have c2 := c.2
@@ -128,15 +131,16 @@ theorem C11_no_lost_wake_kernel (s : St) (hs : Reachable s) :
   intro hp ho hd
   have hinv := hs.inv
   have hcq : 0 < (stepK s).cq := by
-    have hc := consume_cq_sq s s.sq
+    have hc := consume_cq_le s s.sq.length
     rcases hinv.ob ho with c | c | c | c | c
     · unfold stepK; split
       · omega
       · exact c
     · by_cases hm : s.mode = .sqpoll
       · simp only [stepK, hm, beq_self_eq_true, if_true]
-        simp only [consume] at hc ⊢
-        omega
+        rcases consume_true s.sq.length c with d | d
+        · exact d
+        · simp [consume] at d
       · exact absurd (hinv.cover hm c) (not_has_of_all hd (by simp))
     · exact absurd c (not_has_of_all hd (by simp [WPc.robust]))
     · have c2 := c.2
@@ -149,12 +153,15 @@ theorem C11_no_lost_wake_kernel (s : St) (hs : Reachable s) :
     · exact hp
   simp [stepP, hp', hcq]
 
-/-- SQPOLL: while wake messages are published the kernel thread's move is enabled,
-and it posts their completions. (Any state.) -/
-theorem C11_kernel_thread_enabled (s : St) (hm : s.mode = .sqpoll) (hsq : 0 < s.sq) :
-    0 < (stepK s).cq ∧ (stepK s).sq = 0 := by
-  simp only [stepK, hm, beq_self_eq_true, if_true, consume]
-  omega
+/-- SQPOLL: while a wake message is published the kernel thread's move is enabled,
+it empties the queue and posts the message's completion. (Any state.) -/
+theorem C11_kernel_thread_enabled (s : St) (hm : s.mode = .sqpoll) (hsq : true ∈ s.sq) :
+    0 < (stepK s).cq ∧ (stepK s).sq = [] := by
+  simp only [stepK, hm, beq_self_eq_true, if_true]
+  refine ⟨?_, by simp [consume]⟩
+  rcases consume_true s.sq.length hsq with d | d
+  · exact d
+  · simp [consume] at d
 
 /-- Position of a waker in its call (number of own steps still to go, at most). -/
 def WPc.rank : WPc → Nat
@@ -166,15 +173,17 @@ def WPc.rank : WPc → Nat
 
 /-- A waker that has not returned always has an enabled step that changes its pc, to
 one strictly closer to its return (so a wake call takes at most 3 such steps) —
-except in the `QueueFull` retry loop with SQPOLL, when the submission queue is full
-(`sq = sqLen`: full of wake messages): then the kernel thread's move is enabled,
-posts the completions, and after it the waker's step adds its message. Without
-SQPOLL the retry always succeeds, because the waker's own `enter` submits the queue. -/
+except in the `QueueFull` retry loop with SQPOLL, when the submission queue is still
+full (`sq.length = sqLen`; of wake messages and/or other submissions): then the kernel
+thread's move is enabled, empties the queue (posting the completion of every wake message
+in it), and after it the waker's step adds its message. Without SQPOLL the retry always
+succeeds, because the waker's own `enter` submits the whole queue. -/
 theorem C11_waker_progress (s : St) (hs : Reachable s) (j : Nat) (pc : WPc) :
     s.w[j]? = some pc → pc ≠ .done →
       (∃ pc', (stepW s j).w[j]? = some pc' ∧ pc'.rank < pc.rank) ∨
-      (s.mode = .sqpoll ∧ (∃ n, pc = .enter false n) ∧ s.sq = s.sqLen ∧
-        0 < (stepK s).cq ∧ ∃ n', (stepW (stepK s) j).w[j]? = some (.enter true n')) := by
+      (s.mode = .sqpoll ∧ (∃ n, pc = .enter false n) ∧ s.sq.length = s.sqLen ∧
+        (stepK s).sq = [] ∧ (true ∈ s.sq → 0 < (stepK s).cq) ∧
+        ∃ n', (stepW (stepK s) j).w[j]? = some (.enter true n')) := by
   intro hj hnd
   have hinv := hs.inv
   have hset : ∀ x : WPc, (s.w.set j x)[j]? = some x := by
@@ -186,37 +195,43 @@ theorem C11_waker_progress (s : St) (hs : Reachable s) (j : Nat) (pc : WPc) :
     by_cases hw : s.word = 1
     · by_cases hm : s.mode = .single
       · rw [stepW_k1_single hj hw hm]; exact ⟨_, hset _, by simp [WPc.rank]⟩
-      · by_cases hlt : s.sq < s.sqLen
+      · by_cases hlt : s.sq.length < s.sqLen
         · rw [stepW_k1_add hj hw hm hlt]; exact ⟨_, hset _, by simp [WPc.rank]⟩
         · rw [stepW_k1_full hj hw hm hlt]; exact ⟨_, hset _, by simp [WPc.rank]⟩
     · rw [stepW_k1_other hj hw]; exact ⟨_, hset _, by simp [WPc.rank]⟩
   | sync => left; rw [stepW_sync hj]; exact ⟨_, hset _, by simp [WPc.rank]⟩
   | enter added n =>
     cases added
-    · by_cases hlt : (consume s n).sq < s.sqLen
+    · by_cases hlt : (consume s n).sq.length < s.sqLen
       · left; rw [stepW_enter_false_add hj hlt]; exact ⟨_, hset _, by simp [WPc.rank]⟩
       · right
-        have hc := consume_cq_sq s n
+        have hc := consume_len s n
         have hle := hinv.sqle
         have hlen' := hinv.len
         by_cases hm : s.mode = .sqpoll
-        · have hfull : s.sq = s.sqLen := by omega
-          have hk : stepK s = consume s s.sq := by simp [stepK, hm]
+        · have hfull : s.sq.length = s.sqLen := by omega
+          have hk : stepK s = consume s s.sq.length := by simp [stepK, hm]
           have hjk : (stepK s).w[j]? = some (.enter false n) := by rw [hk]; exact hj
-          have hsq0 : (stepK s).sq = 0 := by rw [hk]; simp [consume]
-          have hcq : 0 < (stepK s).cq := by rw [hk]; simp only [consume]; omega
-          have hlt' : (consume (stepK s) n).sq < (stepK s).sqLen := by
-            have := consume_cq_sq (stepK s) n
+          have hsq0 : (stepK s).sq = [] := by rw [hk]; simp [consume]
+          have hcq : true ∈ s.sq → 0 < (stepK s).cq := by
+            intro hin
+            rw [hk]
+            rcases consume_true s.sq.length hin with d | d
+            · exact d
+            · simp [consume] at d
+          have hlt' : (consume (stepK s) n).sq.length < (stepK s).sqLen := by
+            have := consume_len (stepK s) n
             have e : (stepK s).sqLen = s.sqLen := by rw [hk]; rfl
+            rw [hsq0] at this
+            simp only [List.length_nil] at this
             omega
-          refine ⟨hm, ⟨n, rfl⟩, hfull, hcq, ?_⟩
+          refine ⟨hm, ⟨n, rfl⟩, hfull, hsq0, hcq, ?_⟩
           rw [stepW_enter_false_add hjk hlt']
-          refine ⟨if (stepK s).mode = .sqpoll then 0 else (consume (stepK s) n).sq + 1, ?_⟩
+          refine ⟨if (stepK s).mode = .sqpoll then 0 else (consume (stepK s) n).sq.length + 1, ?_⟩
           show ((stepK s).w.set j _)[j]? = _
           rw [get_set hjk]; simp
         · exfalso
           have := hinv.full hm j n hj
-          simp only [consume] at hlt
           omega
     · left; rw [stepW_enter_true hj]; exact ⟨_, hset _, by simp [WPc.rank]⟩
 
@@ -287,6 +302,11 @@ theorem stepMv_other_frame (s : St) (m : Mv) (hm : m ≠ .p) :
     · exact ⟨rfl, Or.inl rfl, fun h => h⟩
     · exact ⟨rfl, Or.inl rfl, fun h => h⟩
   | io => exact ⟨rfl, Or.inl rfl, fun h => h⟩
+  | fill =>
+    simp only [stepMv, stepFill]
+    split
+    · exact ⟨rfl, Or.inl rfl, fun h => h⟩
+    · exact ⟨rfl, Or.inl rfl, fun h => h⟩
 
 theorem noBlockAhead_other {s : St} (h : NoBlockAhead s) (m : Mv) (hm : m ≠ .p) :
     NoBlockAhead (stepMv s m) := by
@@ -362,12 +382,13 @@ theorem C11_next_poll_never_blocks (s : St) (hs : Reachable s) (hp : s.p = .idle
 
 /-- The statement asked for: poller idle, obligation pending, every wake call
 returned; start a poll with an infinite timeout and let only the poller and the
-kernel thread move: the poller never reaches `.waiting`. -/
+kernel thread move (and anybody queue other submissions): the poller never reaches
+`.waiting`. -/
 theorem C11_next_poll_prompt (s : St) (hs : Reachable s) (hp : s.p = .idle)
     (ho : s.oblig = true) (_hd : ∀ pc ∈ s.w, pc = .done)
-    (ms : List Mv) (hms : ∀ m ∈ ms, m = .p ∨ m = .k) :
+    (ms : List Mv) (hms : ∀ m ∈ ms, m = .p ∨ m = .k ∨ m = .fill) :
     (runMv (startPoll s true) ms).p ≠ .waiting := by
-  have key : ∀ (t : St) (ms : List Mv), (∀ m ∈ ms, m = .p ∨ m = .k) →
+  have key : ∀ (t : St) (ms : List Mv), (∀ m ∈ ms, m = .p ∨ m = .k ∨ m = .fill) →
       (t.p = .idle ∨ NoBlockAhead t) → (runMv t ms).p ≠ .waiting := by
     intro t ms
     induction ms generalizing t with
@@ -388,14 +409,14 @@ theorem C11_next_poll_prompt (s : St) (hs : Reachable s) (hp : s.p = .idle)
         · rcases noBlockAhead_stepP h with a | ⟨a, _⟩
           · exact Or.inr a
           · exact Or.inl a
-      · subst e
+      · have hne : m ≠ .p := by rcases e with e | e <;> subst e <;> simp
         rcases h with h | h
         · left
-          have := (stepMv_other_frame t .k (by simp)).2.1
-          rcases this with e | ⟨_, e, _⟩
-          · rw [e]; exact h
-          · cases e
-        · exact Or.inr (noBlockAhead_other h .k (by simp))
+          have := (stepMv_other_frame t m hne).2.1
+          rcases this with e' | ⟨_, e', _⟩
+          · rw [e']; exact h
+          · rcases e with e | e <;> subst e <;> cases e'
+        · exact Or.inr (noBlockAhead_other h m hne)
   refine key _ ms hms (Or.inr ?_)
   have h2 : s.word = 2 := hs.inv.obw ho (by simp [hp, PPc.preSwap])
   left
@@ -435,11 +456,10 @@ theorem rw_waiting {s : St} (hp : s.p = .waiting) (hcq : 0 < s.cq) : ReturnsWith
 
 theorem rw_e3 {s : St} {b : Bool} {n : Nat} (hp : s.p = .e3 b n) (h : b = false ∨ 0 < s.cq) :
     ReturnsWithin s 3 := by
-  have hc := consume_cq_sq s n
   have e : (stepP s).p = .c4 ∧ (stepP s).returns = s.returns := by
     simp only [stepP, hp]
     have hr : (consume s n).returns = s.returns := rfl
-    have hcc : s.cq ≤ (consume s n).cq := hc.2.1
+    have hcc : s.cq ≤ (consume s n).cq := consume_cq_le s n
     generalize consume s n = t at hr hcc
     by_cases hcq : t.cq > 0
     · simp [hcq, hr]
@@ -499,18 +519,18 @@ theorem C11_poll_returns_unblocked (s : St) (hne : s.p ≠ .idle)
 /-- Bounded response to a wake: in any reachable state in which the poller is in a
 call (blocked in the kernel or not), a `wake()` call has passed its `fetch_or` since
 the poller's previous return, every wake call has returned and (SQPOLL) the kernel
-thread has nothing left to consume, the poller's call returns (`returns` increases
+thread has no wake message left to consume, the poller's call returns (`returns` increases
 by one, pc `.idle`) within at most 6 of its own steps — no waker, kernel-thread or
 I/O move is needed. -/
 theorem C11_poll_returns (s : St) (hs : Reachable s) (hne : s.p ≠ .idle)
-    (ho : s.oblig = true) (hd : ∀ pc ∈ s.w, pc = .done) (hk : s.mode = .sqpoll → s.sq = 0) :
+    (ho : s.oblig = true) (hd : ∀ pc ∈ s.w, pc = .done) (hk : s.mode = .sqpoll → true ∉ s.sq) :
     ReturnsWithin s 6 := by
   have hinv := hs.inv
   refine returnsWithin_mono (C11_poll_returns_unblocked s hne ?_) (by omega)
   rcases hinv.ob ho with c | c | c | c | c
   · exact Or.inr c
   · by_cases hm : s.mode = .sqpoll
-    · have := hk hm; omega
+    · exact absurd c (hk hm)
     · exact absurd (hinv.cover hm c) (not_has_of_all hd (by simp))
   · exact absurd c (not_has_of_all hd (by simp [WPc.robust]))
   · exact Or.inl (Or.inl ⟨c.2, hinv.obw ho c.2⟩)
@@ -599,13 +619,14 @@ theorem C11_after_drop (s : St) (j : Nat) (hj : s.w[j]? = some .k1) (hw : s.word
     rw [get_set hj]; simp [hi]
 
 /-- What holds along a run of wake calls while nobody polls. -/
-def Dropped (sq cq : Nat) (t : St) : Prop :=
-  t.p = .idle ∧ t.word % 2 = 0 ∧ (∀ pc ∈ t.w, pc = .k1 ∨ pc = .done) ∧ t.sq = sq ∧ t.cq = cq
+def Dropped (sq : List Bool) (cq : Nat) (t : St) : Prop :=
+  t.p = .idle ∧ t.word % 2 = 0 ∧ (∀ pc ∈ t.w, pc = .k1 ∨ pc = .done) ∧
+  (∃ k, t.sq = sq ++ List.replicate k false) ∧ t.cq = cq
 
-theorem dropped_step {sq cq : Nat} {t : St} (h : Dropped sq cq t) (m : Mv)
-    (hm : (∃ j, m = .call j) ∨ (∃ j, m = .w j)) : Dropped sq cq (stepMv t m) := by
+theorem dropped_step {sq : List Bool} {cq : Nat} {t : St} (h : Dropped sq cq t) (m : Mv)
+    (hm : (∃ j, m = .call j) ∨ (∃ j, m = .w j) ∨ m = .fill) : Dropped sq cq (stepMv t m) := by
   rcases h with ⟨h1, h2, h3, h4, h5⟩
-  rcases hm with ⟨j, rfl⟩ | ⟨j, rfl⟩
+  rcases hm with ⟨j, rfl⟩ | ⟨j, rfl⟩ | rfl
   · simp only [stepMv, startWake]
     split
     · refine ⟨h1, h2, ?_, h4, h5⟩
@@ -627,26 +648,38 @@ theorem dropped_step {sq cq : Nat} {t : St} (h : Dropped sq cq t) (m : Mv)
       rcases h3 pc (List.mem_of_getElem? hj) with e | e
       · subst e
         have a := C11_after_drop t j hj h2
-        refine ⟨a.2.2.2.2.1.trans h1, a.2.2.2.2.2.1, ?_, a.2.2.1.trans h4, a.2.2.2.1.trans h5⟩
-        rw [a.1]
-        intro pc hpc
-        rcases List.mem_or_eq_of_mem_set hpc with b | b
-        · exact h3 pc b
-        · exact Or.inr b
+        refine ⟨a.2.2.2.2.1.trans h1, a.2.2.2.2.2.1, ?_, ?_, a.2.2.2.1.trans h5⟩
+        · rw [a.1]
+          intro pc hpc
+          rcases List.mem_or_eq_of_mem_set hpc with b | b
+          · exact h3 pc b
+          · exact Or.inr b
+        · rw [a.2.2.1]; exact h4
       · subst e
         rw [stepW_done hj]; exact ⟨h1, h2, h3, h4, h5⟩
+  · simp only [stepMv, stepFill]
+    split
+    · refine ⟨h1, h2, h3, ?_, h5⟩
+      rcases h4 with ⟨k, hk⟩
+      refine ⟨k + 1, ?_⟩
+      show t.sq ++ [false] = _
+      rw [hk, List.replicate_succ', List.append_assoc]
+    · exact ⟨h1, h2, h3, h4, h5⟩
 
 /-- After the Ring has been dropped (the poller is idle for good: no `poll`/`p` move, no
 kernel thread, no I/O; every earlier wake call has returned), any number of `wake()` calls
-from any number of threads, interleaved in any way, are harmless: they never queue a
-message or post a completion, and each is finished after its `fetch_or` (a waker is only
-ever about to `fetch_or` or done). -/
+from any number of threads, interleaved in any way (also with other submissions being
+queued), are harmless: they never queue a message or post a completion (the queue only
+grows by the other submissions), and each is finished after its `fetch_or` (a waker is
+only ever about to `fetch_or` or done). -/
 theorem C11_after_drop_run (s : St) (hs : Reachable s) (hp : s.p = .idle)
     (hd : ∀ pc ∈ s.w, pc = .done) (ms : List Mv)
-    (hms : ∀ m ∈ ms, (∃ j, m = .call j) ∨ (∃ j, m = .w j)) :
+    (hms : ∀ m ∈ ms, (∃ j, m = .call j) ∨ (∃ j, m = .w j) ∨ m = .fill) :
     let t := runMv s ms
-    t.sq = s.sq ∧ t.cq = s.cq ∧ t.p = .idle ∧ (∀ pc ∈ t.w, pc = .k1 ∨ pc = .done) := by
-  have key : ∀ (t : St) (ms : List Mv), (∀ m ∈ ms, (∃ j, m = .call j) ∨ (∃ j, m = .w j)) →
+    (∃ k, t.sq = s.sq ++ List.replicate k false) ∧ t.cq = s.cq ∧ t.p = .idle ∧
+    (∀ pc ∈ t.w, pc = .k1 ∨ pc = .done) := by
+  have key : ∀ (t : St) (ms : List Mv),
+      (∀ m ∈ ms, (∃ j, m = .call j) ∨ (∃ j, m = .w j) ∨ m = .fill) →
       Dropped s.sq s.cq t → Dropped s.sq s.cq (runMv t ms) := by
     intro t ms
     induction ms generalizing t with
@@ -656,7 +689,7 @@ theorem C11_after_drop_run (s : St) (hs : Reachable s) (hp : s.p = .idle)
       exact ih (stepMv t m) (fun m' hm' => hms m' (by simp [hm']))
         (dropped_step h m (hms m (by simp)))
   have h0 : Dropped s.sq s.cq s :=
-    ⟨hp, C11_idle_word s hs hp, fun pc hpc => Or.inr (hd pc hpc), rfl, rfl⟩
+    ⟨hp, C11_idle_word s hs hp, fun pc hpc => Or.inr (hd pc hpc), ⟨0, by simp⟩, rfl⟩
   have := key s ms hms h0
   exact ⟨this.2.2.2.1, this.2.2.2.2, this.1, this.2.2.1⟩
 
@@ -687,14 +720,14 @@ theorem C11_strict_reading_witness :
     (let a := runMv (init .default 4) (strictRun.take 7)
      a.p = .c4 ∧ a.w = [.k1] ∧ a.word = 1 ∧ a.returns = 0 ∧ a.oblig = false) ∧
     (let b := runMv (init .default 4) (strictRun.take 9)
-     b.p = .c4 ∧ b.w = [.done] ∧ b.word = 3 ∧ b.cq = 2 ∧ b.sq = 0 ∧ b.returns = 0 ∧
+     b.p = .c4 ∧ b.w = [.done] ∧ b.word = 3 ∧ b.cq = 2 ∧ b.sq = [] ∧ b.returns = 0 ∧
      b.oblig = true) ∧
     -- (3) that poll returns after the wake call, consuming the wake's completion
     (let c := runMv (init .default 4) (strictRun.take 11)
      c.p = .idle ∧ c.returns = 1 ∧ c.cq = 0 ∧ c.word = 0 ∧ c.oblig = false) ∧
     -- (2) the next poll blocks although a wake call completed before it started
     (let d := runMv (init .default 4) strictRun
-     d.p = .waiting ∧ d.cq = 0 ∧ d.sq = 0 ∧ d.w = [.done] ∧ d.returns = 1 ∧
+     d.p = .waiting ∧ d.cq = 0 ∧ d.sq = [] ∧ d.w = [.done] ∧ d.returns = 1 ∧
      d.oblig = false) := by
   decide
 
@@ -711,7 +744,7 @@ theorem C11_strict_reading_witness_no_io :
     (let b := runMv (init .default 4) (strictRun2.take 10)
      b.p = .c4 ∧ b.w = [.done, .done] ∧ b.returns = 0 ∧ b.oblig = true) ∧
     (let d := runMv (init .default 4) strictRun2
-     d.p = .waiting ∧ d.cq = 0 ∧ d.sq = 0 ∧ d.w = [.done, .done] ∧ d.returns = 1 ∧
+     d.p = .waiting ∧ d.cq = 0 ∧ d.sq = [] ∧ d.w = [.done, .done] ∧ d.returns = 1 ∧
      d.oblig = false) := by
   decide
 
@@ -738,13 +771,60 @@ the poller is idle (it only sets AWOKEN) is followed by a poll that blocks for g
 exact situation `C11_no_lost_wake` / `C11_next_poll_prompt` exclude for the real protocol. -/
 theorem C11_old_protocol_loses_wake :
     let s := runMv' (init .default 4) [.call 0, .w 0, .poll true, .p, .p, .p]
-    s.p = .waiting ∧ s.oblig = true ∧ s.w = [.done] ∧ s.cq = 0 ∧ s.sq = 0 := by
+    s.p = .waiting ∧ s.oblig = true ∧ s.w = [.done] ∧ s.cq = 0 ∧ s.sq = [] := by
   decide
 
 /-- The same moves under the real protocol: the poll does not block. -/
 theorem C11_real_protocol_same_run :
     let s := runMv (init .default 4) [.call 0, .w 0, .poll true, .p, .p, .p]
     s.p = .c4 ∧ s.oblig = true ∧ s.w = [.done] := by
+  decide
+
+/-! ### Why the `QueueFull` retry must enter the kernel again -/
+
+/-- The seeded defect: on the `QueueFull` retry path (`.enter false n`: submit what is
+queued, then try the add again) a successful second add returns at once, WITHOUT the
+further `enter` (`.enter true _`) that submits the message. Everything else as `stepW`. -/
+def stepW' (s : St) (j : Nat) : St :=
+  match s.w[j]? with
+  | some (.enter false n) =>
+    let s := consume s n
+    let (s, ok) := tryAdd s
+    if ok then { s with w := s.w.set j .done }
+    else { s with w := s.w.set j (.enter false (toSubmit s)) }
+  | _ => stepW s j
+
+def stepMvW (s : St) : Mv → St
+  | .w j => stepW' s j
+  | m => stepMv s m
+
+def runMvW (s : St) : List Mv → St
+  | [] => s
+  | m :: ms => runMvW (stepMvW s m) ms
+
+/-- Default ring with a single submission-queue slot. The poller blocks; somebody queues an
+operation (the queue is now full); `wake()`: `fetch_or` sees POLLING, the add fails with
+`QueueFull`, the waker's `enter` submits the other operation (no completion), the second
+add succeeds. -/
+def retryRun : List Mv :=
+  [.poll true, .p, .p, .p,   -- start, swap(POLLING), enter: blocked
+   .fill,                    -- the queue is full
+   .call 0, .w 0,            -- wake(): fetch_or, QueueFull
+   .w 0]                     -- enter (submits the filler), second add succeeds
+
+/-- With the seeded defect the wake-up is lost: the wake call has returned, its message sits
+unsubmitted in the queue, nothing is in the completion queue, and the poller stays blocked
+(its own step changes nothing) — exactly what `C11_no_lost_wake` excludes. Under the real
+`stepW` the same moves leave the waker at its second `enter` (`.enter true 1`, not yet
+returned); its last step submits the message, whose completion unblocks the poller. -/
+theorem C11_retry_must_enter :
+    (let s := runMvW (init .default 1) retryRun
+     s.p = .waiting ∧ s.oblig = true ∧ s.w = [.done] ∧ s.cq = 0 ∧ s.sq = [true] ∧
+     (stepP s).p = .waiting) ∧
+    (let r := runMv (init .default 1) retryRun
+     r.p = .waiting ∧ r.oblig = true ∧ r.w = [.enter true 1] ∧ r.cq = 0 ∧ r.sq = [true]) ∧
+    (let r := runMv (init .default 1) (retryRun ++ [.w 0])
+     r.p = .waiting ∧ r.w = [.done] ∧ r.cq = 1 ∧ r.sq = [] ∧ (stepP r).p = .c4) := by
   decide
 
 /-! ### Non-vacuity -/
@@ -757,7 +837,7 @@ def blockedThenWoken (mode : Mode) : St :=
 example : ∀ mode : Mode,
     let s := blockedThenWoken mode
     Reachable s ∧ s.p = .waiting ∧ s.oblig = true ∧ (∀ pc ∈ s.w, pc = .done) ∧
-    (s.mode = .sqpoll → s.sq = 0) ∧ s.w ≠ [] := by
+    (s.mode = .sqpoll → true ∉ s.sq) ∧ s.w ≠ [] := by
   intro mode
   refine ⟨⟨mode, 4, _, by decide, rfl⟩, ?_⟩
   cases mode <;> decide
@@ -767,7 +847,7 @@ example : ∀ mode : Mode,
     let s := runMv (init mode 4)
       [.poll true, .p, .p, .p, .call 0, .w 0, .call 1, .w 1, .w 0, .k]
     Reachable s ∧ s.p = .waiting ∧ s.oblig = true ∧ (∀ pc ∈ s.w, pc = .done) ∧
-    (s.mode = .sqpoll → s.sq = 0) ∧ s.w.length = 2 := by
+    (s.mode = .sqpoll → true ∉ s.sq) ∧ s.w.length = 2 := by
   intro mode
   refine ⟨⟨mode, 4, _, by decide, rfl⟩, ?_⟩
   cases mode <;> decide
@@ -795,8 +875,37 @@ SQPOLL configuration it needs the kernel thread (`C11_waker_progress`, second ca
 example :
     let s := runMv (init .sqpoll 1) [.poll true, .p, .p, .p, .call 0, .w 0, .io, .p, .p, .p,
       .poll true, .p, .p, .p, .call 1, .w 1]
-    s.w = [.enter true 0, .enter false 0] ∧ s.sq = s.sqLen ∧
+    s.w = [.enter true 0, .enter false 0] ∧ s.sq = [true] ∧ s.sq.length = s.sqLen ∧
     (stepW s 1).w[1]? = some (.enter false 0) := by
   decide
+
+/-- Other submissions in the queue (fillers queued before the wake message, between the
+add and the waker's `enter`, and afterwards): states meeting the hypotheses of
+`C11_no_lost_wake` with a non-empty submission queue, for each mode. -/
+example : ∀ mode : Mode,
+    let s := runMv (init mode 4)
+      [.poll true, .p, .p, .p, .fill, .call 0, .w 0, .fill, .w 0, .k, .fill]
+    Reachable s ∧ s.p = .waiting ∧ s.oblig = true ∧ (∀ pc ∈ s.w, pc = .done) ∧
+    (s.mode = .sqpoll → true ∉ s.sq) ∧ false ∈ s.sq ∧ 0 < s.cq := by
+  intro mode
+  refine ⟨⟨mode, 4, _, by decide, rfl⟩, ?_⟩
+  cases mode <;> decide
+
+/-- The queue exactly full of other submissions when `wake()` is called (one slot, default
+mode): the `QueueFull` retry path, run to completion, meets the hypotheses of
+`C11_no_lost_wake`. -/
+example :
+    let s := runMv (init .default 1) (retryRun ++ [.w 0])
+    Reachable s ∧ s.p = .waiting ∧ s.oblig = true ∧ (∀ pc ∈ s.w, pc = .done) ∧ 0 < s.cq :=
+  ⟨⟨.default, 1, _, by decide, rfl⟩, by decide⟩
+
+/-- Hypotheses of `C11_next_poll_prompt` with fillers in the queue. -/
+example : ∀ mode : Mode,
+    let s := runMv (init mode 4) [.fill, .call 0, .fill, .w 0]
+    Reachable s ∧ s.p = .idle ∧ s.oblig = true ∧ (∀ pc ∈ s.w, pc = .done) ∧
+    s.sq = [false, false] := by
+  intro mode
+  refine ⟨⟨mode, 4, _, by decide, rfl⟩, ?_⟩
+  cases mode <;> decide
 
 end A10.Wake
